@@ -58,7 +58,7 @@ def generate(rng, tier, index):
     if not cands or not rg:
         return None
     steps = []
-    n_steps = rng.choice([1, 2, 2, 3, 3])
+    n_steps = rng.choice([1, 2, 2, 3, 3]) if tier == "quick" else rng.choice([1, 2, 3, 3, 4, 5])
     for si in range(n_steps):
         retain = rng.random() < 0.55
         kind = rng.choice(["jd", "jd", "jd", "torch_backward", "torch_grad"])
